@@ -564,6 +564,146 @@ func TestVerif_C03_Wire(t *testing.T) {
 	})
 }
 
+// ---- many requests outstanding at once ------------------------------------------------------
+
+// The statement's "matched to the request with the same transaction id exactly once" has no bound on how many
+// requests are outstanding: A pipelines N requests with pairwise distinct ids (integers, fractions, huge values),
+// B answers them all afterwards in a PRNG order; every _result must match, with the right type, once.
+func TestVerif_C03_ManyOutstanding(t *testing.T) {
+	m := mon.New("C03", "outstanding")
+	defer m.Finish(t)
+	m.Rule("outstanding: A pipelines N in {1..64, 1000..1100, 1500..6000 (thorough also 20000..70000)} requests with pairwise distinct transaction ids " +
+		"(i+1, i+1.5, i*2^33, PRNG doubles) before B answers any; B then answers all in PRNG order, some twice; every first _result must decode as the " +
+		"response type of its request, every second one must be an error; distinct = N bucket x id family x outcome")
+	n := m.N(24, 400)
+	m.Require("evaluations", int64(n))
+	m.Require("result_matched", int64(n*40))
+	m.Require("sessions_with_more_than_1024_outstanding", int64(n/6))
+	mon.Parallel(n, func(w, i int) {
+		r := m.Rand("outstanding", i)
+		var N int
+		switch i % 4 {
+		case 0:
+			N = r.Range(1, 64)
+		case 1:
+			N = r.Range(1000, 1100)
+		default:
+			N = r.Range(1500, 6000)
+			if !m.Quick() && i%8 == 7 {
+				N = r.Range(20000, 70000)
+			}
+		}
+		fam := r.Intn(4)
+		rep := map[string]interface{}{"case": i, "N": N, "idfamily": fam}
+		m.Guard("rtmp.outstanding", nil, func() {
+			ca, cb, _, _ := vnet.Pair(vnet.PickSeg(r), vnet.SegWhole())
+			pa, pb := NewProtocol(ca), NewProtocol(cb)
+			type req struct {
+				tid     amf0.Number
+				connect bool
+			}
+			reqs := make([]req, N)
+			seen := map[uint64]bool{}
+			for k := 0; k < N; k++ {
+				var tid float64
+				for {
+					switch fam {
+					case 0:
+						tid = float64(k + 1)
+					case 1:
+						tid = float64(k) + 1.5
+					case 2:
+						tid = float64(k+1) * 8589934592.0
+					default:
+						tid = math.Float64frombits(r.Uint64()&^(0xfff<<52) | uint64(r.Range(1000, 1100))<<52) // positive, finite
+					}
+					if !seen[math.Float64bits(tid)] {
+						break
+					}
+				}
+				seen[math.Float64bits(tid)] = true
+				q := req{tid: amf0.Number(tid), connect: tid == 1} // well-formed connect carries id 1
+				reqs[k] = q
+				var pkt Packet
+				if q.connect {
+					p := NewConnectAppPacket()
+					p.TransactionID = q.tid
+					pkt = p
+				} else {
+					p := NewCreateStreamPacket()
+					p.TransactionID = q.tid
+					pkt = p
+				}
+				if err := pa.WritePacket(pkt, 0); err != nil {
+					m.Violationf("c03:write-error:outstanding", rep, "request #%d: %v", k, err)
+					return
+				}
+				// B consumes the request so that only A's table grows
+				msg, err := pb.ReadMessage()
+				if err != nil {
+					m.Violationf("c03:read-error:outstanding", rep, "request #%d: %v", k, err)
+					return
+				}
+				if _, err := pb.DecodeMessage(msg); err != nil {
+					m.Violationf("c03:decode-error:outstanding", rep, "request #%d: %v", k, err)
+					return
+				}
+			}
+			if N > 1024 {
+				m.Count("sessions_with_more_than_1024_outstanding", 1)
+			}
+			order := r.Perm(N)
+			for _, k := range order {
+				q := reqs[k]
+				var resp Packet
+				wantT := verifTCreateRes
+				if q.connect {
+					resp, wantT = NewConnectAppResPacket(q.tid), verifTConnRes
+				} else {
+					p := NewCreateStreamResPacket(q.tid)
+					p.StreamID = amf0.Number(r.Range(1, 100))
+					resp = p
+				}
+				twice := r.Chance(1, 16)
+				for round := 0; round < 2; round++ {
+					if round == 1 && !twice {
+						break
+					}
+					if err := pb.WritePacket(resp, 0); err != nil {
+						m.Violationf("c03:write-error:response", rep, "%v", err)
+						return
+					}
+					msg, err := pa.ReadMessage()
+					if err != nil {
+						m.Violationf("c03:read-error:response", rep, "%v", err)
+						return
+					}
+					pkt, err := pa.DecodeMessage(msg)
+					m.Case()
+					if round == 0 {
+						if err != nil {
+							m.Violationf("c03:result-not-matched:many-outstanding", rep, "_result for request #%d (tid=%v) of %d outstanding failed: %v", k, float64(q.tid), N, err)
+							return
+						}
+						if reflect.TypeOf(pkt) != wantT {
+							m.Violationf("c03:result-wrong-type:many-outstanding", rep, "_result for request #%d (tid=%v, connect=%v) decoded as %T", k, float64(q.tid), q.connect, pkt)
+							return
+						}
+						m.Count("result_matched", 1)
+					} else {
+						if err == nil {
+							m.Violationf("c03:result-matched-twice:many-outstanding", rep, "second _result for tid=%v decoded as %T", float64(q.tid), pkt)
+							return
+						}
+						m.Count("result_duplicate", 1)
+					}
+				}
+			}
+			m.Classf("N:%d/fam:%d/all-matched", verifBucket(N), fam)
+		})
+	})
+}
+
 // ---- typed waits ---------------------------------------------------------------------------
 
 func TestVerif_C03_Expect(t *testing.T) {
